@@ -183,6 +183,7 @@ type modelSession struct {
 	pins   []*Term
 	cache  map[int]*sexp
 	rounds int
+	start  time.Time
 }
 
 func (m *modelSession) values(terms []*Term) ([]*sexp, error) {
@@ -194,8 +195,14 @@ func (m *modelSession) values(terms []*Term) ([]*sexp, error) {
 	}
 	if len(need) > 0 {
 		m.rounds++
-		if m.rounds > 12 {
+		if m.rounds > 120 {
 			return nil, fmt.Errorf("too many model rounds")
+		}
+		if m.start.IsZero() {
+			m.start = time.Now()
+		}
+		if time.Since(m.start) > 45*time.Second {
+			return nil, fmt.Errorf("model extraction exceeded its time budget")
 		}
 		// pin what we know
 		saved := m.x.assumes
@@ -214,9 +221,9 @@ func (m *modelSession) values(terms []*Term) ([]*sexp, error) {
 				sp = s
 			}
 		}
-		ctx, cancel := context.WithTimeout(context.Background(), 60*time.Second)
+		ctx, cancel := context.WithTimeout(context.Background(), 15*time.Second)
 		defer cancel()
-		argv := sp.argv(file, 50)
+		argv := sp.argv(file, 12)
 		cmd := exec.CommandContext(ctx, argv[0], argv[1:]...)
 		var out bytes.Buffer
 		cmd.Stdout = &out
@@ -285,6 +292,8 @@ type litCtx struct {
 	nvar    int
 	st      *State // initial state for heap reads
 	imports map[string]bool
+	approx  []string
+	start   time.Time
 }
 
 func (lc *litCtx) typeStr(t types.Type) string { return types.TypeString(t, lc.qual) }
@@ -293,7 +302,7 @@ func (lc *litCtx) lit(t *Term, typ types.Type, depth int) (string, error) {
 	x := lc.m.x
 	w := x.w
 	ts := w.ts
-	if depth > 4 {
+	if depth > 8 {
 		return "", fmt.Errorf("value too deep")
 	}
 	tname := lc.typeStr(typ)
@@ -415,7 +424,9 @@ func (lc *litCtx) lit(t *Term, typ types.Type, depth int) (string, error) {
 				return fmt.Sprintf("%s(%s)", tname, inner), nil
 			}
 		}
-		return "", fmt.Errorf("interface value of a type outside the contract's vocabulary (%s)", v)
+		// a dynamic type the contract does not talk about: best effort
+		lc.approx = append(lc.approx, fmt.Sprintf("%s: %s replaced by nil", tname, v))
+		return fmt.Sprintf("%s(nil)", tname), nil
 	case *types.Pointer:
 		v, err := lc.m.value(t)
 		if err != nil {
@@ -429,10 +440,22 @@ func (lc *litCtx) lit(t *Term, typ types.Type, depth int) (string, error) {
 		if g := lc.globalFor(t, typ); g != "" {
 			return g, nil
 		}
+		if depth > 3 || time.Since(lc.start) > 40*time.Second {
+			lc.approx = append(lc.approx, tname+": deep pointer replaced by nil")
+			return fmt.Sprintf("(%s)(nil)", tname), nil
+		}
 		if st, ok := u.Elem().Underlying().(*types.Struct); ok {
 			lc.nvar++
 			name := fmt.Sprintf("p%d", lc.nvar)
 			fmt.Fprintf(lc.pre, "\t%s := new(%s)\n", name, lc.typeStr(u.Elem()))
+			// prefetch all fields (and slice/struct parts) in one solver round
+			var pre []*Term
+			for i := 0; i < st.NumFields(); i++ {
+				cn, cs := x.fieldComp(u.Elem(), i)
+				fv := ts.Select(x.comp(lc.st, cn, cs), t)
+				pre = append(pre, lc.parts(fv, st.Field(i).Type(), 0)...)
+			}
+			lc.m.values(pre)
 			for i := 0; i < st.NumFields(); i++ {
 				cn, cs := x.fieldComp(u.Elem(), i)
 				fv := ts.Select(x.comp(lc.st, cn, cs), t)
@@ -456,6 +479,19 @@ func (lc *litCtx) lit(t *Term, typ types.Type, depth int) (string, error) {
 			parts = append(parts, fmt.Sprintf("%s: %s", u.Field(i).Name(), e))
 		}
 		return fmt.Sprintf("%s{%s}", tname, strings.Join(parts, ", ")), nil
+	case *types.Array:
+		// only the first few elements are taken from the model
+		lc.nvar++
+		name := fmt.Sprintf("a%d", lc.nvar)
+		fmt.Fprintf(lc.pre, "\tvar %s %s\n", name, tname)
+		for i := int64(0); i < u.Len() && i < 4; i++ {
+			e, err := lc.lit(ts.Select(t, ts.BV(uint64(i), 64)), u.Elem(), depth+1)
+			if err != nil {
+				break
+			}
+			fmt.Fprintf(lc.pre, "\t%s[%d] = %s\n", name, i, e)
+		}
+		return name, nil
 	case *types.Map:
 		v, err := lc.m.value(t)
 		if err != nil {
@@ -560,7 +596,8 @@ func (e *Engine) Replay(r *Result, d *Discharged, outDir string) *ReplayOutcome 
 		st0.heap[n] = x.w.Const(n+"!0", s)
 	}
 	ms := &modelSession{x: x, o: d.Obl, solver: d.Res.Solver, dir: outDir, cache: map[int]*sexp{}}
-	lc := &litCtx{m: ms, qual: qual, pre: &pre, st: st0, imports: map[string]bool{}}
+	ms.preferSmall()
+	lc := &litCtx{m: ms, qual: qual, pre: &pre, st: st0, imports: map[string]bool{}, start: time.Now()}
 	var args []string
 	h := c.harness
 	for i, p := range h.Params {
@@ -650,3 +687,90 @@ func (e *Engine) runReplayFile(pkgPath, testFile string) (bool, string) {
 }
 
 var _ = ssa.NewConst
+
+// preferSmall looks for a model in which every slice and string mentioned by
+// the obligation is short (so that inputs can be written down); the bound is
+// relaxed until the obligation is still satisfiable.
+func (m *modelSession) preferSmall() {
+	x := m.x
+	ts := x.w.ts
+	roots := append([]*Term{}, x.assumes[:m.o.nAssume]...)
+	roots = append(roots, m.o.goal)
+	seen := map[int]bool{}
+	var slices, strs []*Term
+	var rec func(t *Term)
+	rec = func(t *Term) {
+		if seen[t.id] {
+			return
+		}
+		seen[t.id] = true
+		if !t.open {
+			if t.sort == SSlice && !(t.kind == kApp && t.op == "ite") {
+				slices = append(slices, t)
+			}
+			if t.sort == SStr {
+				strs = append(strs, t)
+			}
+		}
+		for _, a := range t.args {
+			rec(a)
+		}
+	}
+	for _, r := range roots {
+		rec(r)
+	}
+	if len(slices)+len(strs) == 0 || len(slices)+len(strs) > 400 {
+		return
+	}
+	for _, k := range []uint64{4, 16, 64} {
+		var pins []*Term
+		for _, s := range slices {
+			pins = append(pins, x.w.bvule(x.w.sCap(s), ts.BV(k, 64)))
+		}
+		for _, s := range strs {
+			pins = append(pins, x.w.bvule(x.w.strLen(s), ts.BV(k, 64)))
+		}
+		saved := x.assumes
+		n := m.o.nAssume
+		x.assumes = append(append([]*Term{}, x.assumes[:n]...), pins...)
+		o2 := *m.o
+		o2.nAssume = len(x.assumes)
+		text := x.smtText(&o2, nil)
+		x.assumes = saved
+		file := filepath.Join(m.dir, fmt.Sprintf("%s.small%d.smt2", sanitize(m.o.Name), k))
+		os.WriteFile(file, []byte(text), 0o644)
+		res := solveFile(file, 20, nil)
+		if res.Status == "sat" {
+			m.pins = pins
+			m.solver = res.Solver
+			return
+		}
+	}
+}
+
+// parts lists the scalar terms lit() will ask for when building a value of typ (shallow).
+func (lc *litCtx) parts(t *Term, typ types.Type, depth int) []*Term {
+	w := lc.m.x.w
+	if depth > 2 {
+		return nil
+	}
+	switch u := typ.Underlying().(type) {
+	case *types.Basic:
+		if t.sort == SStr {
+			return []*Term{w.strLen(t)}
+		}
+		return []*Term{t}
+	case *types.Slice:
+		return []*Term{w.sArr(t), w.sOff(t), w.sLen(t), w.sCap(t)}
+	case *types.Interface, *types.Pointer, *types.Map:
+		return []*Term{t}
+	case *types.Struct:
+		si := w.structOf(typ)
+		var out []*Term
+		for i := 0; i < u.NumFields(); i++ {
+			out = append(out, lc.parts(w.field(si, t, i), u.Field(i).Type(), depth+1)...)
+		}
+		return out
+	}
+	return nil
+}
